@@ -1104,6 +1104,14 @@ func (x *Exec) step(st *State, fr *Frame, in ssa.Instruction) {
 				fr.env[ins] = BytePtr{Val: &p, Index: idx}
 			} else {
 				x.boundsCheck(st, fr, idx, seqLen(p.T), ins.Pos())
+				if o, ok := fr.origin[ins.X]; ok {
+					// the slice was loaded from an addressable place and is still the value stored there: address the
+					// element in place, so that a store through it is not lost
+					if cur, ok := x.load(st, o, nil).(TV); ok && cur.T == p.T {
+						fr.env[ins] = PtrV{Cell: o.Cell, Path: append(append([]PathElem(nil), o.Path...), PathElem{IsIndex: true, Index: idx})}
+						break
+					}
+				}
 				fr.env[ins] = ElemPtr{Seq: p, Index: idx}
 			}
 		case SliceRef:
